@@ -265,10 +265,17 @@ func (m *apiRunner) step(c *apiCall) apiStep {
 		})
 	}
 
-	// C19
+	// C19: the listing reports exactly the seconds the index was created with
+	if c.M == "listIndexes" && strings.HasPrefix(reply, `{"ok"`) {
+		safely("ttl-listing", func() {
+			if detail := ttlListing(reply, m.book[lungo.Handle{c.DB, c.Coll}]); detail != "" {
+				viol("C19", "listIndexes does not report the expireAfterSeconds the index was created with", "ttl:listing-seconds", detail)
+			}
+		})
+	}
 	if c.M == "expire" && strings.HasPrefix(reply, `{"ok"`) {
 		safely("ttl", func() {
-			removedBad, keptBad := ttlOracle(pre, post, c.Now)
+			removedBad, keptBad := ttlOracle(pre, post, c.Now, m.book)
 			if removedBad != "" {
 				viol("C19", "Expire removed a document that is not expired", "ttl:wrong-removed", removedBad)
 			}
@@ -562,8 +569,15 @@ func uniqueIndexNames(ns *mongokit.Collection) []string {
 }
 
 func uniqueViolation(ns *mongokit.Collection) (string, bsonkit.Doc, bsonkit.Doc) {
-	for _, name := range uniqueIndexNames(ns) {
-		cfg := ns.Indexes[name].Config()
+	names := uniqueIndexNames(ns)
+	if ns.Indexes["_id_"] == nil {
+		names = append([]string{"_id_"}, names...) // `_id` is unique whatever happened to its index
+	}
+	for _, name := range names {
+		cfg := mongokit.IndexConfig{Key: &bson.D{{Key: "_id", Value: int32(1)}}, Unique: true}
+		if ix := ns.Indexes[name]; ix != nil {
+			cfg = ix.Config()
+		}
 		var docs bsonkit.List
 		var tps [][][]interface{}
 		for _, d := range ns.Documents.List {
@@ -802,6 +816,27 @@ func updateDescCheck(prev bson.D, ev bsonkit.Doc, full bson.D) string {
 	upd, _ := bsonkit.Get(&ud, "updatedFields").(bson.D)
 	rem, _ := bsonkit.Get(&ud, "removedFields").(bson.A)
 	doc := bsonkit.Clone(&prev)
+	// truncatedArrays: [{field, newSize}] cut an array before the updated fields are applied
+	if tr, ok := bsonkit.Get(&ud, "truncatedArrays").(bson.A); ok {
+		for _, t := range tr {
+			td, _ := t.(bson.D)
+			field, _ := bsonkit.Get(&td, "field").(string)
+			arr, isArr := bsonkit.Get(doc, field).(bson.A)
+			size := int64(-1)
+			switch n := bsonkit.Get(&td, "newSize").(type) {
+			case int32:
+				size = int64(n)
+			case int64:
+				size = n
+			}
+			if field == "" || !isArr || size < 0 || size > int64(len(arr)) {
+				return "unusable truncatedArrays entry " + vj.Enc(t) + " for prev " + vj.Enc(prev)
+			}
+			if _, err := bsonkit.Put(doc, field, append(bson.A{}, arr[:size]...), false); err != nil {
+				return "cannot truncate " + field
+			}
+		}
+	}
 	paths := make([]string, 0, len(upd))
 	vals := map[string]interface{}{}
 	for _, e := range upd {
@@ -1048,6 +1083,41 @@ func modifyTarget(c *apiCall, pre, post *lungo.Catalog) string {
 
 // ---- C19: TTL oracle ----
 
+// ttlListing checks the expireAfterSeconds fields of a listIndexes reply against the book.
+func ttlListing(reply string, defs map[string]ixDef) string {
+	v, ok := parseJSON(reply)
+	if !ok {
+		return ""
+	}
+	top, _ := v.(map[string]interface{})
+	okv, _ := top["ok"].(map[string]interface{})
+	raw, _ := okv["docs"].([]interface{})
+	for _, x := range raw {
+		dv, err := vj.FromRaw(x)
+		if err != nil {
+			return ""
+		}
+		d, _ := dv.(bson.D)
+		name, _ := bsonkit.Get(&d, "name").(string)
+		def, known := defs[name]
+		if !known {
+			continue
+		}
+		got := bsonkit.Get(&d, "expireAfterSeconds")
+		switch {
+		case def.hasTTL && got == bsonkit.Missing:
+			return name + ": created with " + strconv.FormatInt(def.ttlSec, 10) + " s, listed without expireAfterSeconds"
+		case def.hasTTL:
+			if c, ok := exactCmp(got, def.ttlSec); !ok || c != 0 {
+				return name + ": created with " + strconv.FormatInt(def.ttlSec, 10) + " s, listed with " + vj.Enc(got)
+			}
+		case got != bsonkit.Missing:
+			return name + ": created without TTL, listed with " + vj.Enc(got)
+		}
+	}
+	return ""
+}
+
 // ttlLeafs: the values a query on the path sees (array elements one level at the end,
 // documents inside arrays along the way, numeric segments as array positions).
 func ttlLeafs(v interface{}, segs []string, out *[]interface{}) {
@@ -1084,7 +1154,10 @@ func ttlLeafs(v interface{}, segs []string, out *[]interface{}) {
 
 type ttlOutOfDomain struct{}
 
-func ttlOracle(pre, post *lungo.Catalog, nowMs int64) (removedBad, keptBad string) {
+// ttlOracle: which documents an expiry pass at nowMs must remove. The TTL indexes and their
+// lifetimes are the ones the successful createIndex calls of the history asked for (seconds, from the
+// book — not the engine's stored duration); the cutoff is computed here in int64 milliseconds.
+func ttlOracle(pre, post *lungo.Catalog, nowMs int64, book ixBook) (removedBad, keptBad string) {
 	for _, h := range sortedHandles(pre) {
 		if h == lungo.Oplog {
 			continue
@@ -1095,9 +1168,16 @@ func ttlOracle(pre, post *lungo.Catalog, nowMs int64) (removedBad, keptBad strin
 			cutoff int64
 		}
 		var ttls []ttl
-		for _, ix := range ns.Indexes {
-			cfg := ix.Config()
-			if cfg.Expiry > 0 {
+		booked := map[string]bool{}
+		for name, def := range book[h] {
+			booked[name] = true
+			if def.hasTTL && len(def.keyDoc) > 0 {
+				ttls = append(ttls, ttl{field: def.keyDoc[0].Key, cutoff: nowMs - def.ttlSec*1000})
+			}
+		}
+		for name, ix := range ns.Indexes {
+			// an index the book does not know (reported by C15): its own duration
+			if cfg := ix.Config(); !booked[name] && cfg.Expiry > 0 {
 				ttls = append(ttls, ttl{field: (*cfg.Key)[0].Key, cutoff: nowMs - int64(cfg.Expiry/time.Millisecond)})
 			}
 		}
